@@ -232,6 +232,11 @@ func (e *Exec) formatHexInt(t *sym.Term, minWidth int, zeroPad, upper bool) []*s
 func (e *Exec) sprintf(format string, args []Value, argTypes []types.Type, lossy bool) Str {
 	var out []*sym.Term
 	var soleDec *decInfo
+	type decPiece struct {
+		off  int
+		info decInfo
+	}
+	var decPieces []decPiece
 	ai := 0
 	for i := 0; i < len(format); i++ {
 		c := format[i]
@@ -307,18 +312,15 @@ func (e *Exec) sprintf(format string, args []Value, argTypes []types.Type, lossy
 				piece = append(pad, piece...)
 			}
 		}
-		if len(out) == 0 && len(piece) > 0 {
-			if d, ok := e.decimalOrigin(piece); ok {
-				soleDec = &d
-			}
-		} else {
-			soleDec = nil
+		if d, ok := e.decimalOrigin(piece); ok {
+			decPieces = append(decPieces, decPiece{len(out), d})
 		}
 		out = append(out, piece...)
 	}
-	if soleDec != nil && len(out) == soleDec.n {
-		e.decOrigin[&out[0]] = *soleDec
+	for _, dp := range decPieces {
+		e.decOrigin[&out[dp.off]] = dp.info
 	}
+	_ = soleDec
 	return Str{out}
 }
 
